@@ -252,10 +252,9 @@ def case_twins(rng, desc, fmt):
 
 
 def empty_frames_ok(fmt):
-    """Kept out of the generated stream for now: the XLS reader of the unchanged code raises UnboundLocalError (xls.py load: `new_signal`
-    is used before a signal row was seen) for a sheet whose first frame has no signal, and goes on with the signal of the frame before
-    otherwise.  Reported as a finding of the strengthening round; every other format gets frames without signals."""
-    return fmt != "xls"
+    """Every format gets frames without signals (the XLS reader used to raise UnboundLocalError for a sheet whose first frame has no
+    signal and to go on with the signal of the frame before otherwise: repaired in round 11, /repo 863fdd5)."""
+    return True
 
 
 def empty_frames(rng, desc, fmt):
